@@ -186,19 +186,34 @@ def _pick(options, i):
     return v
 
 
+def _md(kind, infer, n, i0, i1, prep=0, imp=0):
+    from chx.shim import fix_bool, fix_int, untraced
+
+    a = (fix_int(kind, 0, 2), fix_bool(infer), fix_int(n, 1, 2), fix_int(i0, 0, len(ALPHA) - 1), fix_int(i1, 0, len(ALPHA) - 1), fix_int(prep, 0, len(PREPENDS) - 1), fix_int(imp, 0, len(IMPORTS) - 1))
+    return untraced(lambda: module_defines(*a))
+
+
+def _ip(kind, infer, mask):
+    from chx.shim import fix_bool, fix_int, untraced
+
+    a = (fix_int(kind, 0, len(K4_KINDS) - 1), fix_bool(infer), fix_int(mask, 1, 2 ** len(ATTRS) - 1))
+    return untraced(lambda: interface_preserved(*a))
+
+
+SOLVER_ENUM = "SOLVER-ENUMERATED: every argument is a selector made concrete by a fork (chx.shim.fix_bool/fix_int); the real code then runs untraced"
 ob("C19", "K3.module_defines.quick", {"kind": R(0, 2), "infer": BOOL, "n": R(1, 2), "i0": R(0, 0), "i1": R(0, 1)}, T=400, tpath=60,
    funcs=["cdd.compound.gen_utils.gen_module", "cdd.compound.gen_utils.get_functions_and_classes", "cdd.shared.ast_utils.infer_imports", "cdd.shared.ast_utils.optimise_imports"],
    bound="gen_module on 1-2 class entries using Optional[int] (second name 'aa'/'ai'), emit kind class/function/argparse, --emit-and-infer-imports on/off "
-         "(solver-enumerated): one defined symbol per entry, __all__ == defined, typing imported when inferring, module compiles")(module_defines)
+         "(solver-enumerated): one defined symbol per entry, __all__ == defined, typing imported when inferring, module compiles")(_md)
 ob("C19", "K3.module_defines", {"kind": R(0, 2), "infer": BOOL, "n": R(1, 2), "i0": R(0, 2), "i1": R(0, 5)}, T=1500, tpath=60, tier="thorough",
    funcs=["cdd.compound.gen_utils.gen_module", "cdd.compound.gen_utils.get_functions_and_classes", "cdd.shared.ast_utils.infer_imports", "cdd.shared.ast_utils.optimise_imports"],
    bound="gen_module on 1-2 class entries using Optional[int] (names over the finite alphabet), emit kind class/function/argparse, --emit-and-infer-imports on/off "
-         "(solver-enumerated): one defined symbol per entry, __all__ == defined, typing imported when inferring, module compiles")(module_defines)
+         "(solver-enumerated): one defined symbol per entry, __all__ == defined, typing imported when inferring, module compiles")(_md)
 ob("C19", "K3.module_prepend", {"kind": R(0, 2), "infer": BOOL, "n": R(1, 1), "i0": R(0, 0), "i1": R(0, 0), "prep": R(0, len(PREPENDS) - 1), "imp": R(0, len(IMPORTS) - 1)},
    pre="prep + imp > 0", T=1500, tpath=60,
    funcs=["cdd.compound.gen_utils.gen_module", "cdd.compound.gen_utils.get_functions_and_classes", "cdd.shared.ast_utils.infer_imports", "cdd.shared.ast_utils.optimise_imports"],
    bound="gen_module with --prepend in %r and --imports-from-file content in %r (plain imports, relative imports, capitalised packages and `from __future__` lines in any order), "
-         "import inference on/off, 3 emit kinds (solver-enumerated): the module and its rendered text compile, every requested import is present, __all__ == defined" % (PREPENDS, IMPORTS))(module_defines)
+         "import inference on/off, 3 emit kinds (solver-enumerated): the module and its rendered text compile, every requested import is present, __all__ == defined" % (PREPENDS, IMPORTS))(_md)
 
 
 # K4: each generated symbol, parsed back, has the interface of its source entry ---------------------------------------------------------
@@ -263,4 +278,4 @@ for _k in range(len(K4_KINDS)):
                   "cdd.argparse_function.parse.argparse_ast", "cdd.pydantic.parse.pydantic"],
            bound="one source class with ANY non-empty subset of the attributes %r, emit kind %s, import inference %s (solver-enumerated): the generated symbol, "
                  "rendered to text and parsed back with the matching parser, has the names, order, types, defaults and descriptions of the source entry"
-                 % ([(n, t, d) for n, t, d, _ in ATTRS], K4_KINDS[_k], "on" if _inf else "off"))(interface_preserved)
+                 % ([(n, t, d) for n, t, d, _ in ATTRS], K4_KINDS[_k], "on" if _inf else "off"))(_ip)
